@@ -55,7 +55,8 @@ ASSUMPTIONS = [
 
 WORKER = 'harness.props.c15_worker'
 CORPUS = os.path.join(coq.VERIF, 'corpus', 'C15')
-FAULTS = ['PortReadError', 'Exception', 'OSError', 'TimeoutError', 'SkipRead']
+FAULTS = ['PortReadError', 'Exception', 'OSError', 'TimeoutError', 'SkipRead', 'SkipRead', 'PortError', 'PortTimeout', 'PortTimeout',
+          'PortLoadError', 'RuntimeError']
 DTS = [125, 125, 125, 250, 500, 1000, 1000, 1000, 2000, 5000, 9875, 10000, 10125, 12000]
 PROCS = 4
 
@@ -87,6 +88,7 @@ def gen_scenario(rng, fault_bias=0.5, attr=True):
             'internal': rng.random() < 0.1, 'persisted': rng.random() < 0.15, 'expr': expr,
             'init': rng.randint(0, 9), 'faulty': pid in faulty,
         }
+
     order = ids[:]
     rng.shuffle(order)
     ports = [spec[p] for p in order]
@@ -128,6 +130,16 @@ def gen_load_scenario(rng):
     # depends on passes triggered by the faulty ports (see c15_worker.diff_views)
     exprs = {p['id'] for p in sc['ports'] if p['expr'] is not None}
     sc['steps'] = [st for st in sc['steps'] if not (st[0] == 'set' and st[1] in exprs)]
+    exprs0 = {p['id'] for p in sc['ports'] if p['expr'] is not None}
+    # with a read transform a pass is suspended while the transform is evaluated, and evaluation tasks run in between: the
+    # *intermediate* values through which a chain of healthy expression ports converges then depend on that scheduling (not on
+    # any failure), so transforms are generated only when no healthy expression port reads another expression port
+    flat = not any(p['expr'] is not None and not p['faulty'] and any(d in exprs0 for d in p['expr'][1:]) for p in sc['ports'])
+    for p in sc['ports']:
+        if flat and p['faulty'] and rng.random() < 0.5:
+            # a read transform; only on faulty ports and only in this family: evaluating it suspends the pass (function calls
+            # gather their arguments), so passes are not atomic any more, which the Coq model of the other family assumes
+            p['tr'] = rng.choice([['mul', 2], ['mul', 3], ['add', 1], ['mul', -1]])
     for p in sc['ports']:
         if p['faulty']:
             p['persisted'] = False
@@ -318,6 +330,9 @@ def case_text(sc, run, idx, healthy):
         elif k == 'write':
             r = 'WOk' if it[4] == 'ok' else 'WExc'
             events.append('Write %d %s %s' % (idx[it[2]], c_val(it[3]), r))
+            if r == 'WOk' and len(it) > 5 and it[5] != it[3]:
+                # a read transform: the driver holds v but a read yields T(v) (the model's echo driver would read back v)
+                events.append('SourceSet %d %s' % (idx[it[2]], c_val(it[5])))
             obs.append('(OWrite %d %s %s)' % (idx[it[2]], c_val(it[3]), r))
     flush()
     final = run['states'][-1] if run['states'] else run['init']
